@@ -424,6 +424,16 @@ impl b::Guest for G {
                         acc = acc.wrapping_add(bag[i].get());
                     }
                 }
+                // maps below the top level of an import's parameters: their entry arrays are scratch
+                // blocks of the bindings that must stay alive until the call has been made
+                13 => {
+                    let (a, b) = (arg(), arg());
+                    let mk = |n: u32, k: u32| -> wit_bindgen::rt::Map<u32, u64> { (0..n % 4).map(|i| (k + i, (i as u64) << 20)).collect() };
+                    let l = vec![mk(a, 1), mk(a + 1, 50), mk(a + 2, 90)];
+                    let o: Option<wit_bindgen::rt::Map<String, u32>> = if b % 2 == 0 { Some((0..1 + b % 3).map(|i| (format!("m{i}"), i)).collect()) } else { None };
+                    let r: Result<wit_bindgen::rt::Map<u32, u64>, u8> = if b % 3 == 0 { Err(3) } else { Ok(mk(b, 7)) };
+                    acc = acc.wrapping_add(imp::tally_maps(&l, o.as_ref(), r.as_ref().map_err(|e| *e)));
+                }
                 11 => {
                     let errs = unsafe { &mut GUEST_ERRS };
                     if !errs.is_empty() {
@@ -508,7 +518,7 @@ fn world() -> &'static (Resolve, BTreeMap<String, Function>, BTreeMap<String, Fu
         }
         let mut resolve = Resolve::default();
         // the host's view of the world: a map is, for the canonical ABI, a list of (key, value) tuples
-        let host_wit = C07_WIT.replace("map<u32, u64>", "list<tuple<u32, u64>>").replace("map<string, list<u8>>", "list<tuple<string, list<u8>>>");
+        let host_wit = C07_WIT.replace("map<u32, u64>", "list<tuple<u32, u64>>").replace("map<string, list<u8>>", "list<tuple<string, list<u8>>>").replace("map<string, u32>", "list<tuple<string, u32>>");
         assert!(!host_wit.contains("map<"));
         let pkg = resolve.push_str("w.wit", &host_wit).expect("c07 wit");
         let wid = resolve.select_world(&[pkg], None).unwrap();
@@ -1374,7 +1384,7 @@ pub fn run_one(fam: &str, seed: u64, idx: u64, ch: Choices, trace: bool) -> RunR
                 let n = 1 + pick(8);
                 let mut script = vec![];
                 for _ in 0..n {
-                    let op = pick(13) as u64;
+                    let op = pick(14) as u64;
                     script.push(Val::U(op));
                     for _ in 0..3 {
                         script.push(Val::U(pick(1000) as u64));
@@ -1469,7 +1479,7 @@ fn remap_script(raw: Vec<Val>) -> Vec<Val> {
     let need = |op: u64| -> usize {
         match op {
             0 | 1 | 2 | 6 | 7 | 11 | 12 => 1,
-            3 | 10 => 2,
+            3 | 10 | 13 => 2,
             4 | 5 => 3,
             _ => 0,
         }
